@@ -397,7 +397,9 @@ fn evaluate_boolean(
                 || current_index >= current_end_index
             {
                 if current_op == Not {
-                    ret = false;
+                    // Either a true operand short-circuits the `not` to false, or the nested
+                    // list that was the last operand evaluated to false and the `not` is true.
+                    ret = !ret;
                 }
                 current_index = current_end_index;
                 continue;
